@@ -163,6 +163,11 @@ func (t *ttlMemCache) set(key string, value []byte, fns ...SetOptFn) error {
 		fn(o)
 	}
 	var ele, ok = t.eleHash[key]
+	if ok && now() > ele.Value.(*ttlNode).deadline {
+		// an expired entry behaves like a key that was never set
+		t.remove(ele, ele.Value.(*ttlNode))
+		ok = false
+	}
 	if ok {
 		if o.mustNotExist {
 			return ErrTTLKeyExists
